@@ -5,7 +5,8 @@
    _send_raw, _conn_sm_handle_stanza, _handle_sm, _sm_queue_cleanup/_resend, conn_disconnect, _conn_reset ...)
    together with the ghost server of Spec/SmSpec.v over an arbitrary history `l`: user sends, write phases with any
    partial-write schedule, inbound elements of every kind with any h at any time, stream end, connection loss,
-   any number of reconnects.  `all_honest` asks one thing of the server: an accepted <resumed h> carries its own
+   any number of reconnects, changes of the connection handler's script (what the application sends on
+   XMPP_CONN_CONNECT).  `all_honest` asks one thing of the server: an accepted <resumed h> carries its own
    count (what it reported before <= h <= what the client wrote, fewer than 2^32 stanzas on the session). *)
 Require Import LV.Common.Bytes LV.Model.SmModel LV.Spec.SmSpec LV.Proofs.SmProofs LV.Proofs.SmFlagsProofs
                LV.Proofs.SmRetainedProofs.
@@ -34,24 +35,29 @@ Theorem sm_ack_exact :
 Proof. exact c04_ack_exact. Qed.
 Print Assumptions sm_ack_exact.
 
-(* <resumed h> accepted: exactly the elements numbered h and above are queued again, once, in their order, behind
-   what the send queue holds (nothing countable can be there: sm_resends_first), the rest is released, the SM
-   queue is empty, the client's count is h - in step with the server's by sm_retained - and the negotiation is
-   complete. *)
+(* <resumed h> accepted while the negotiation is running: exactly the elements numbered h and above are queued
+   again, once, in their order, behind what the send queue holds (nothing countable can be there:
+   sm_resends_first) and AHEAD of what the application's connection handler submits on XMPP_CONN_CONNECT (`news`:
+   as many fresh ghost ids as the handler's script `on_connect` has stanzas, all allocated in this step); the rest
+   is released, the SM queue is empty, the client's count is h - in step with the server's by sm_retained - and
+   the negotiation is complete. *)
 Theorem sm_resume_exact :
   forall bt st pv h,
-    connected st = true -> h_sm st = true -> previd st = Some pv -> hs_sorted (smq st) ->
+    connected st = true -> h_sm st = true -> neg_done st = false -> previd st = Some pv -> hs_sorted (smq st) ->
     Forall (fun e => s_owner e = OUser) (smq st) ->
     let r := dispatch bt st (ISm (SmResumed (Some pv) (Some h))) in
+    exists news,
     smq (fst r) = [] /\
-    sqc (fst r) = sqc st ++ map s_gid (filter (fun e => h <=? s_h e) (smq st)) /\
+    sqc (fst r) = sqc st ++ map s_gid (filter (fun e => h <=? s_h e) (smq st)) ++ news /\
+    length news = length (on_connect st) /\ Forall (fun x => next_gid st <= x) news /\
     In (OG (GRelease (map s_gid (filter (fun e => s_h e <? h) (smq st))))) (snd r) /\
     sent_nr (fst r) = w32 h /\ sm_enabled (fst r) = true /\ neg_done (fst r) = true.
 Proof. exact c04_resumed_step. Qed.
 Print Assumptions sm_resume_exact.
 
 (* "ahead of anything new": while the negotiation is running the send queue holds nothing countable, so what
-   <resumed/> or <enabled/> re-queues is written before anything the user submits afterwards; and a session that
+   <resumed/> or <enabled/> re-queues is written before anything the user submits afterwards - including what the
+   connection handler submits from inside _stream_negotiation_success (sm_resume_exact, sm_failed_resends); and a session that
    is being enabled starts counting at 0. *)
 Theorem sm_resends_first :
   forall bt l,
@@ -64,7 +70,7 @@ Print Assumptions sm_resends_first.
 
 (* resumption failed: with item-not-found only what the server reports as handled (h, if it gives one) is
    released, any other <failed/> releases nothing; when the new session is enabled the whole SM queue is queued
-   again, in order, and the SM queue is empty. *)
+   again, in order, ahead of what the connection handler submits on CONNECT, and the SM queue is empty. *)
 Theorem sm_failed_resends :
   (forall bt st h,
      connected st = true -> h_sm st = true -> resume st = true -> hs_sorted (smq st) ->
@@ -77,10 +83,13 @@ Theorem sm_failed_resends :
      connected st = true -> h_sm st = true -> c <> FItemNotFound ->
      smq (fst (dispatch bt st (ISm (SmFailed c h)))) = smq st) /\
   (forall bt st ra id,
-     connected st = true -> h_sm st = true -> sm_enabled st = true -> (ra = true -> id <> None) ->
+     connected st = true -> h_sm st = true -> sm_enabled st = true -> neg_done st = false -> (ra = true -> id <> None) ->
      Forall (fun e => s_owner e = OUser) (smq st) ->
      let r := dispatch bt st (ISm (SmEnabled ra id)) in
-     smq (fst r) = [] /\ sqc (fst r) = sqc st ++ smqg st /\ handled_nr (fst r) = 0 /\ neg_done (fst r) = true).
+     exists news,
+     smq (fst r) = [] /\ sqc (fst r) = sqc st ++ smqg st ++ news /\
+     length news = length (on_connect st) /\ Forall (fun x => next_gid st <= x) news /\
+     handled_nr (fst r) = 0 /\ neg_done (fst r) = true).
 Proof. exact (conj c04_failed_step (conj c04_failed_keeps c04_enabled_step)). Qed.
 Print Assumptions sm_failed_resends.
 
